@@ -2,7 +2,7 @@
    Only statements, `exact lemma`, Examples.  Model: Model/MathArray.v (MathArray operator dispatch and the array
    actions of expressions.py), specification: Model/MathArraySpec.v (la_shape, la_value: what ordinary linear algebra
    prescribes, written independently of the dispatch).  The model is tied to the code by differential
-   correspondence (harness/props/c14.py); np.linalg.inv and Python's scalar ** are oracles (function arguments).
+   correspondence (harness/props/c14.py); np.linalg.matrix_rank, np.linalg.inv and Python's scalar ** are oracles (function arguments).
 
    Quantifier: `proper` operands = plain numbers and arrays with more than one element (any number of axes, any
    lengths, Gaussian-rational entries, dtype kind int/float/complex); every theorem below holds for all of them. *)
@@ -20,50 +20,50 @@ Open Scope Q_scope.
    algebra gives: elementwise sum/difference of equal shapes (zero scalar = additive identity), scalar scaling,
    dot, matrix-vector, vector-matrix, matrix-matrix product, division by a scalar, M^k by repeated multiplication,
    M^-k as the k-th power of the inverse and only while negative powers are enabled *)
-Theorem C14_operator_result_is_linear_algebra : forall negpow inv spow op a b r,
-  proper a -> proper b -> py_binop negpow inv spow op a b = Ret r -> la_value negpow inv spow op a b r.
+Theorem C14_operator_result_is_linear_algebra : forall negpow rk inv spow op a b r,
+  proper a -> proper b -> py_binop negpow rk inv spow op a b = Ret r -> la_value negpow rk inv spow op a b r.
 Proof. exact operator_sound. Qed.
 
 (* ... in particular its shape is the one the strict shape rules prescribe: no silent broadcasting *)
-Theorem C14_no_silent_broadcast : forall negpow inv spow op a b r,
-  proper a -> proper b -> is_arr a \/ is_arr b -> py_binop negpow inv spow op a b = Ret r ->
+Theorem C14_no_silent_broadcast : forall negpow rk inv spow op a b r,
+  proper a -> proper b -> is_arr a \/ is_arr b -> py_binop negpow rk inv spow op a b = Ret r ->
   la_shape negpow op a b = Some (vshape r).
 Proof. exact no_silent_broadcast. Qed.
 
 (* where the shape rules define no result, the operator raises a student-facing error *)
-Theorem C14_undefined_operation_is_student_error : forall negpow inv spow op a b,
+Theorem C14_undefined_operation_is_student_error : forall negpow rk inv spow op a b,
   proper a -> proper b -> la_shape negpow op a b = None ->
-  is_student_error (py_binop negpow inv spow op a b).
+  is_student_error (py_binop negpow rk inv spow op a b).
 Proof. exact undefined_is_error. Qed.
 
 (* where they define one, the operator returns (so the two theorems above are not vacuous); the only other outcomes
-   are division by the zero scalar and an inverse that np.linalg.inv refuses *)
-Theorem C14_defined_operation_returns : forall negpow inv spow op a b s,
+   are division by the zero scalar and a matrix that the rank test or np.linalg.inv refuses *)
+Theorem C14_defined_operation_returns : forall negpow rk inv spow op a b s,
   proper a -> proper b -> is_arr a \/ is_arr b -> la_shape negpow op a b = Some s ->
-  (exists r, py_binop negpow inv spow op a b = Ret r) \/
-  (op = Div /\ is_number_zero b = true /\ py_binop negpow inv spow op a b = Raise EZeroDiv) \/
-  (op = Pow /\ py_binop negpow inv spow op a b = Raise ESingular).
+  (exists r, py_binop negpow rk inv spow op a b = Ret r) \/
+  (op = Div /\ is_number_zero b = true /\ py_binop negpow rk inv spow op a b = Raise EZeroDiv) \/
+  (op = Pow /\ py_binop negpow rk inv spow op a b = Raise ESingular).
 Proof. exact defined_returns. Qed.
 
 (* results stay inside the quantifier, so the statements compose along chains *)
-Theorem C14_results_stay_in_scope : forall negpow inv spow op a b r,
-  proper a -> proper b -> is_arr a \/ is_arr b -> py_binop negpow inv spow op a b = Ret r -> proper r.
+Theorem C14_results_stay_in_scope : forall negpow rk inv spow op a b r,
+  proper a -> proper b -> is_arr a \/ is_arr b -> py_binop negpow rk inv spow op a b = Ret r -> proper r.
 Proof. exact proper_closed. Qed.
 
 (* in-place and reflected forms *)
-Theorem C14_inplace_is_plain : forall negpow inv spow op a b,
-  py_inplace negpow inv spow op a b = py_binop negpow inv spow op a b.
+Theorem C14_inplace_is_plain : forall negpow rk inv spow op a b,
+  py_inplace negpow rk inv spow op a b = py_binop negpow rk inv spow op a b.
 Proof. exact inplace_is_plain. Qed.
-Theorem C14_radd_is_add : forall negpow inv spow ks c ka sh d,
-  py_binop negpow inv spow Add (Num ks c) (Arr ka sh d) = py_binop negpow inv spow Add (Arr ka sh d) (Num ks c).
+Theorem C14_radd_is_add : forall negpow rk inv spow ks c ka sh d,
+  py_binop negpow rk inv spow Add (Num ks c) (Arr ka sh d) = py_binop negpow rk inv spow Add (Arr ka sh d) (Num ks c).
 Proof. exact radd_is_add. Qed.
 
 (* single-element arrays are outside the property's quantifier; as right operand of *, / and ^ they act as the number they hold *)
-Theorem C14_numberlike_acts_as_scalar : forall negpow inv spow op ks shs ds ko sho d2,
+Theorem C14_numberlike_acts_as_scalar : forall negpow rk inv spow op ks shs ds ko sho d2,
   op = Mul \/ op = Div \/ op = Pow ->
   proper (Arr ks shs ds) -> sprod sho = 1%nat ->
-  py_binop negpow inv spow op (Arr ks shs ds) (Arr ko sho d2)
-  = py_binop negpow inv spow op (Arr ks shs ds) (Num ko (item d2)).
+  py_binop negpow rk inv spow op (Arr ks shs ds) (Arr ko sho d2)
+  = py_binop negpow rk inv spow op (Arr ks shs ds) (Num ko (item d2)).
 Proof. exact numberlike_acts_as_scalar. Qed.
 
 (* the kernels named by la_value are the textbook definitions, entry by entry *)
@@ -87,82 +87,82 @@ Proof. exact power_unfolds. Qed.
 
 (* ---------------------------------------------------------------------------------------------------------
    Second sentence: the operations that are always errors. *)
-Theorem C14_nonzero_scalar_plus_array_error : forall negpow inv spow op ks c a,
+Theorem C14_nonzero_scalar_plus_array_error : forall negpow rk inv spow op ks c a,
   addsub op -> proper a -> is_arr a -> cis_zero c = false ->
-  is_student_error (py_binop negpow inv spow op (Num ks c) a) /\
-  is_student_error (py_binop negpow inv spow op a (Num ks c)).
+  is_student_error (py_binop negpow rk inv spow op (Num ks c) a) /\
+  is_student_error (py_binop negpow rk inv spow op a (Num ks c)).
 Proof. exact nonzero_scalar_plus_array_error. Qed.
 
-Theorem C14_shape_mismatch_error : forall negpow inv spow op ka sa da kb sb db,
+Theorem C14_shape_mismatch_error : forall negpow rk inv spow op ka sa da kb sb db,
   addsub op -> proper (Arr ka sa da) -> proper (Arr kb sb db) -> sa <> sb ->
-  is_student_error (py_binop negpow inv spow op (Arr ka sa da) (Arr kb sb db)).
+  is_student_error (py_binop negpow rk inv spow op (Arr ka sa da) (Arr kb sb db)).
 Proof. exact shape_mismatch_error. Qed.
 
-Theorem C14_product_mismatch_error : forall negpow inv spow ka sa da kb sb db,
+Theorem C14_product_mismatch_error : forall negpow rk inv spow ka sa da kb sb db,
   proper (Arr ka sa da) -> proper (Arr kb sb db) -> product_shape sa sb = None ->
-  is_student_error (py_binop negpow inv spow Mul (Arr ka sa da) (Arr kb sb db)).
+  is_student_error (py_binop negpow rk inv spow Mul (Arr ka sa da) (Arr kb sb db)).
 Proof. exact product_mismatch_error. Qed.
 
-Theorem C14_tensor_product_error : forall negpow inv spow ka sa da kb sb db,
+Theorem C14_tensor_product_error : forall negpow rk inv spow ka sa da kb sb db,
   proper (Arr ka sa da) -> proper (Arr kb sb db) -> (2 < length sa)%nat \/ (2 < length sb)%nat ->
-  is_student_error (py_binop negpow inv spow Mul (Arr ka sa da) (Arr kb sb db)).
+  is_student_error (py_binop negpow rk inv spow Mul (Arr ka sa da) (Arr kb sb db)).
 Proof. exact tensor_product_error. Qed.
 
-Theorem C14_divide_by_array_error : forall negpow inv spow a b,
-  proper a -> proper b -> is_arr b -> is_student_error (py_binop negpow inv spow Div a b).
+Theorem C14_divide_by_array_error : forall negpow rk inv spow a b,
+  proper a -> proper b -> is_arr b -> is_student_error (py_binop negpow rk inv spow Div a b).
 Proof. exact divide_by_array_error. Qed.
 
 (* vectors, tensors and non-square matrices to any power *)
-Theorem C14_bad_base_power_error : forall negpow inv spow a b,
-  proper a -> proper b -> is_arr a -> ~ square_matrix a -> is_student_error (py_binop negpow inv spow Pow a b).
+Theorem C14_bad_base_power_error : forall negpow rk inv spow a b,
+  proper a -> proper b -> is_arr a -> ~ square_matrix a -> is_student_error (py_binop negpow rk inv spow Pow a b).
 Proof. exact bad_base_power_error. Qed.
 (* matrices to non-integer powers (fractional floats, complex numbers) *)
-Theorem C14_non_integer_power_error : forall negpow inv spow a ke e,
-  proper a -> is_arr a -> integer_like ke e = false -> is_student_error (py_binop negpow inv spow Pow a (Num ke e)).
+Theorem C14_non_integer_power_error : forall negpow rk inv spow a ke e,
+  proper a -> is_arr a -> integer_like ke e = false -> is_student_error (py_binop negpow rk inv spow Pow a (Num ke e)).
 Proof. exact non_integer_power_error. Qed.
-Theorem C14_array_exponent_error : forall negpow inv spow a b,
-  proper a -> proper b -> is_arr b -> is_student_error (py_binop negpow inv spow Pow a b).
+Theorem C14_array_exponent_error : forall negpow rk inv spow a b,
+  proper a -> proper b -> is_arr b -> is_student_error (py_binop negpow rk inv spow Pow a b).
 Proof. exact array_exponent_error. Qed.
 
 (* chained products of three or more vectors: any chain of numbers and vectors (any lengths, any number of
    operands, '*' and '/' anywhere) with at least three vector factors is refused *)
-Theorem C14_triple_vector_refused : forall negpow inv spow first rest,
+Theorem C14_triple_vector_refused : forall negpow rk inv spow first rest,
   scalar_or_vector first -> Forall (fun p => scalar_or_vector (snd p)) rest ->
   (3 <= count_mul_vectors first rest)%nat ->
-  eval_error (eval_product negpow inv spow first rest).
+  eval_error (eval_product negpow rk inv spow first rest).
 Proof. exact triple_vector_refused. Qed.
 
 (* ---------------------------------------------------------------------------------------------------------
    Third sentence: negative matrix powers while disabled. *)
-Theorem C14_negative_power_disabled_error : forall inv spow a ke e,
-  proper a -> is_arr a -> cre e < 0 -> is_student_error (py_binop false inv spow Pow a (Num ke e)).
+Theorem C14_negative_power_disabled_error : forall rk inv spow a ke e,
+  proper a -> is_arr a -> cre e < 0 -> is_student_error (py_binop false rk inv spow Pow a (Num ke e)).
 Proof. exact negative_power_disabled_error'. Qed.
 
 (* ---------------------------------------------------------------------------------------------------------
    Formula strings: the evaluation actions fold the same operators. *)
-Theorem C14_eval_sum_sound : forall negpow inv spow rest first r,
+Theorem C14_eval_sum_sound : forall negpow rk inv spow rest first r,
   proper first -> Forall (fun p => proper (snd p)) rest ->
-  eval_sum negpow inv spow first rest = Ret r ->
-  la_chain negpow inv spow Add Sub first rest r /\ proper r.
+  eval_sum negpow rk inv spow first rest = Ret r ->
+  la_chain negpow rk inv spow Add Sub first rest r /\ proper r.
 Proof. exact eval_sum_sound. Qed.
 
-Theorem C14_eval_product_sound : forall negpow inv spow rest first r,
+Theorem C14_eval_product_sound : forall negpow rk inv spow rest first r,
   proper first -> Forall (fun p => proper (snd p)) rest ->
-  eval_product negpow inv spow first rest = Ret r ->
-  la_chain negpow inv spow Mul Div first rest r /\ proper r.
+  eval_product negpow rk inv spow first rest = Ret r ->
+  la_chain negpow rk inv spow Mul Div first rest r /\ proper r.
 Proof. exact eval_product_sound. Qed.
 
 (* power chains a ^ - b ^ c, folded right to left *)
-Theorem C14_eval_power_sound : forall negpow inv spow, spow_numeric spow -> forall items r,
-  Forall (opt_pred proper) items -> eval_power negpow inv spow items = Ret r ->
-  la_power negpow inv spow items r /\ proper r.
+Theorem C14_eval_power_sound : forall negpow rk inv spow, spow_numeric spow -> forall items r,
+  Forall (opt_pred proper) items -> eval_power negpow rk inv spow items = Ret r ->
+  la_power negpow rk inv spow items r /\ proper r.
 Proof. exact eval_power_sound. Qed.
 
 (* whole formula trees (sums of products of negations of powers of numbers, variables, array literals and
    parenthesised trees, any depth and width): whenever evaluation returns, every operator application on the way was a
    linear-algebra step, and the value is again a number or an array with more than one element *)
-Theorem C14_formula_evaluation_is_linear_algebra : forall negpow inv spow, spow_numeric spow -> forall e r,
-  wf_expr e -> eval_expr negpow inv spow e = Ret r -> la_eval negpow inv spow e r /\ proper r.
+Theorem C14_formula_evaluation_is_linear_algebra : forall negpow rk inv spow, spow_numeric spow -> forall e r,
+  wf_expr e -> eval_expr negpow rk inv spow e = Ret r -> la_eval negpow rk inv spow e r /\ proper r.
 Proof. exact eval_expr_sound. Qed.
 
 (* array literals: children of one common shape are stacked, anything ragged is refused *)
@@ -178,86 +178,88 @@ Theorem C14_eval_array_ragged : forall items,
 Proof. exact eval_array_ragged. Qed.
 
 (* ---------------------------------------------------------------------------------------------------------
-   Negative powers and singular matrices.  FULL STATEMENT (what the property demands of the code):
+   Negative powers and singular matrices (code as repaired by /repo 9dbef38: __pow__ runs np.linalg.matrix_rank before
+   inverting).  Two numpy oracles stand behind  M^-k ; their contracts are explicit hypotheses, both are evaluated in
+   Coq on every answer recorded by the correspondence, and both are satisfiable (C14_exact_oracles_meet_contracts):
+     rank_complete rk          the rank test flags every matrix that has a nonzero kernel vector;
+     inv_sound_regular rk inv  on matrices the rank test lets through, np.linalg.inv returns a two-sided inverse. *)
 
-       forall M square, k > 0:   M^-k  returns (M^-1)^k  when M is invertible and is an error when M is singular.
-
-   It is proved below RELATIVE TO the hypothesis inv_sound (whatever np.linalg.inv returns is a two-sided inverse):
-   C14_negative_power_partial, C14_singular_negative_power_error_partial.  The hypothesis is satisfiable
-   (C14_exact_inverse_is_sound) but numpy's LU-based inverse does NOT satisfy it: for singular matrices whose
-   floating-point elimination leaves a tiny nonzero pivot it returns a huge finite matrix instead of raising,
-   MathArray.__pow__ only converts the LinAlgError and so returns that matrix.  C14_singular_negative_power_refuted
-   exhibits the witness with the oracle answer observed on the implementation. *)
-Theorem C14_negative_power_partial : forall inv spow, inv_sound inv -> forall ka n d ke e,
-  proper (Arr ka [n; n] d) -> integer_like ke e = true -> (exponent_Z e < 0)%Z ->
-  (exists b, py_binop true inv spow Pow (Arr ka [n; n] d) (Num ke e)
-             = Ret (Arr (kmax KFloat ka) [n; n] (mpow n b (Z.to_nat (- exponent_Z e))))
-             /\ data_eq (matmat n n n d b) (identity n) /\ data_eq (matmat n n n b d) (identity n))
-  \/ py_binop true inv spow Pow (Arr ka [n; n] d) (Num ke e) = Raise ESingular.
-Proof. exact negative_power_partial. Qed.
-
-Theorem C14_singular_negative_power_error_partial : forall negpow inv spow, inv_sound inv -> forall ka n d ke e,
+(* singular matrices: a negative power is ALWAYS a student-facing error -- for every exponent type, with negative powers
+   enabled or not, and whatever np.linalg.inv would answer (it is never asked).  This replaces the former
+   C14_singular_negative_power_refuted: the statement that was refuted for the old code holds for the repaired code. *)
+Theorem C14_singular_negative_power_error : forall negpow rk inv spow, rank_complete rk -> forall ka n d ke e,
   proper (Arr ka [n; n] d) -> has_kernel_vector n d -> cre e < 0 ->
-  is_student_error (py_binop negpow inv spow Pow (Arr ka [n; n] d) (Num ke e)).
+  is_student_error (py_binop negpow rk inv spow Pow (Arr ka [n; n] d) (Num ke e)).
 Proof. exact singular_negative_power_error. Qed.
 
-Theorem C14_exact_inverse_is_sound : inv_sound exact_inv.
-Proof. exact exact_inv_sound. Qed.
+(* regular matrices: M^-k is the k-th power of a two-sided inverse of M, or the singular-matrix error *)
+Theorem C14_negative_power_is_inverse_power : forall rk inv spow, inv_sound_regular rk inv -> forall ka n d ke e,
+  proper (Arr ka [n; n] d) -> integer_like ke e = true -> (exponent_Z e < 0)%Z ->
+  (exists b, rk ka n d = false /\
+             py_binop true rk inv spow Pow (Arr ka [n; n] d) (Num ke e)
+             = Ret (Arr (kmax KFloat ka) [n; n] (mpow n b (Z.to_nat (- exponent_Z e))))
+             /\ data_eq (matmat n n n d b) (identity n) /\ data_eq (matmat n n n b d) (identity n))
+  \/ py_binop true rk inv spow Pow (Arr ka [n; n] d) (Num ke e) = Raise ESingular.
+Proof. exact negative_power_inverse. Qed.
 
-(* numpy_inv_observed (Proofs/MathArray.v): np.linalg.inv([[3,3],[5,5]]) as observed on the implementation, exact doubles:
-   [[2251799813685248, -1351079888211149], [-2251799813685248, 1351079888211149]];  singular_witness = [[3,3],[5,5]] *)
-Example C14_singular_negative_power_refuted :
+Theorem C14_exact_oracles_meet_contracts :
+  rank_complete exact_rank_deficient /\ inv_sound_regular exact_rank_deficient exact_inv.
+Proof. exact (conj exact_rank_complete exact_inv_sound_regular). Qed.
+
+(* regression example, the witness of the repaired defect: [[3,3],[5,5]] has the kernel vector (1,-1); with numpy's observed
+   answers (matrix_rank = 1 < 2; inv = [[2251799813685248, -1351079888211149], [-2251799813685248, 1351079888211149]], which is
+   no inverse) the repaired __pow__ raises the singular-matrix error *)
+Example C14_ex_singular_witness_is_error :
   proper (Arr KInt [2; 2]%nat singular_witness) /\
   has_kernel_vector 2 singular_witness /\
-  (match py_binop true numpy_inv_observed no_spow Pow (Arr KInt [2; 2]%nat singular_witness) (Num KInt (zi (-1))) with
-   | Ret (Arr KFloat [2%nat; 2%nat] d) =>
-       map cred d = [ (2251799813685248 # 1, 0); (- (1351079888211149 # 1), 0);
-                      (- (2251799813685248 # 1), 0); (1351079888211149 # 1, 0) ]
-   | _ => False end) /\
+  py_binop true numpy_rank_observed numpy_inv_observed no_spow Pow (Arr KInt [2; 2]%nat singular_witness) (Num KInt (zi (-1)))
+    = Raise ESingular /\
+  py_binop true exact_rank_deficient exact_inv no_spow Pow (Arr KInt [2; 2]%nat singular_witness) (Num KFloat (zi (-2)))
+    = Raise ESingular /\
   ~ inv_sound numpy_inv_observed.
-Proof. exact c14_singular_refuted. Qed.
+Proof. exact c14_singular_witness_is_error. Qed.
 
 (* ---------------------------------------------------------------------------------------------------------
    Non-vacuity / reading notes (vm_compute on the model). *)
 
 (* [[1,2],[3,4]] * [5,6] = [17,39] ;  [1,2] * [[1,2],[3,4]] = [7,10] ;  [1,2]*[3,4] = 11 *)
 Example C14_ex_products :
-  py_binop true exact_inv no_spow Mul (Arr KInt [2;2]%nat (map zi [1;2;3;4]%Z)) (Arr KInt [2]%nat (map zi [5;6]%Z))
+  py_binop true exact_rank_deficient exact_inv no_spow Mul (Arr KInt [2;2]%nat (map zi [1;2;3;4]%Z)) (Arr KInt [2]%nat (map zi [5;6]%Z))
     = Ret (Arr KInt [2]%nat [(17,0); (39,0)]) /\
-  py_binop true exact_inv no_spow Mul (Arr KInt [2]%nat (map zi [1;2]%Z)) (Arr KInt [2;2]%nat (map zi [1;2;3;4]%Z))
+  py_binop true exact_rank_deficient exact_inv no_spow Mul (Arr KInt [2]%nat (map zi [1;2]%Z)) (Arr KInt [2;2]%nat (map zi [1;2;3;4]%Z))
     = Ret (Arr KInt [2]%nat [(7,0); (10,0)]) /\
-  py_binop true exact_inv no_spow Mul (Arr KInt [2]%nat (map zi [1;2]%Z)) (Arr KInt [2]%nat (map zi [3;4]%Z))
+  py_binop true exact_rank_deficient exact_inv no_spow Mul (Arr KInt [2]%nat (map zi [1;2]%Z)) (Arr KInt [2]%nat (map zi [3;4]%Z))
     = Ret (Num KInt (11,0)) /\
   (* a (1,2) x (2,1) product is a number, not a (1,1) array *)
-  py_binop true exact_inv no_spow Mul (Arr KInt [1;2]%nat (map zi [1;2]%Z)) (Arr KInt [2;1]%nat (map zi [3;4]%Z))
+  py_binop true exact_rank_deficient exact_inv no_spow Mul (Arr KInt [1;2]%nat (map zi [1;2]%Z)) (Arr KInt [2;1]%nat (map zi [3;4]%Z))
     = Ret (Num KInt (11,0)).
 Proof. exact c14_ex_products. Qed.
 
 (* [[1,2],[3,4]]^-1 = [[-2,1],[3/2,-1/2]] with the exact inverse; refused while negative powers are disabled;
    [[1,2],[2,4]]^-1 is the singular-matrix error *)
 Example C14_ex_powers :
-  (match py_binop true exact_inv no_spow Pow (Arr KInt [2;2]%nat (map zi [1;2;3;4]%Z)) (Num KInt (zi (-1))) with
+  (match py_binop true exact_rank_deficient exact_inv no_spow Pow (Arr KInt [2;2]%nat (map zi [1;2;3;4]%Z)) (Num KInt (zi (-1))) with
    | Ret (Arr KFloat [2%nat; 2%nat] d) => map cred d = [(-2,0); (1,0); (3#2,0); (-1#2,0)]
    | _ => False end) /\
-  py_binop false exact_inv no_spow Pow (Arr KInt [2;2]%nat (map zi [1;2;3;4]%Z)) (Num KInt (zi (-1))) = Raise ENegPowDisabled /\
-  py_binop true exact_inv no_spow Pow (Arr KInt [2;2]%nat (map zi [1;2;2;4]%Z)) (Num KInt (zi (-1))) = Raise ESingular /\
-  py_binop true exact_inv no_spow Pow (Arr KInt [2;2]%nat (map zi [1;2;3;4]%Z)) (Num KFloat (2,0))
+  py_binop false exact_rank_deficient exact_inv no_spow Pow (Arr KInt [2;2]%nat (map zi [1;2;3;4]%Z)) (Num KInt (zi (-1))) = Raise ENegPowDisabled /\
+  py_binop true exact_rank_deficient exact_inv no_spow Pow (Arr KInt [2;2]%nat (map zi [1;2;2;4]%Z)) (Num KInt (zi (-1))) = Raise ESingular /\
+  py_binop true exact_rank_deficient exact_inv no_spow Pow (Arr KInt [2;2]%nat (map zi [1;2;3;4]%Z)) (Num KFloat (2,0))
     = Ret (Arr KInt [2;2]%nat [(7,0); (10,0); (15,0); (22,0)]) /\
-  py_binop true exact_inv no_spow Pow (Arr KInt [2;2]%nat (map zi [1;2;3;4]%Z)) (Num KFloat (1#2,0)) = Raise ENonIntPow /\
-  py_binop true exact_inv no_spow Pow (Arr KInt [2;2]%nat (map zi [1;2;3;4]%Z)) (Num KComplex (2,0)) = Raise ENonIntPow /\
-  py_binop true exact_inv no_spow Pow (Arr KInt [2;3]%nat (map zi [1;2;3;4;5;6]%Z)) (Num KInt (zi 2)) = Raise EPowNonSquare /\
-  py_binop true exact_inv no_spow Pow (Arr KInt [2]%nat (map zi [1;2]%Z)) (Num KInt (zi 2)) = Raise EPowShape.
+  py_binop true exact_rank_deficient exact_inv no_spow Pow (Arr KInt [2;2]%nat (map zi [1;2;3;4]%Z)) (Num KFloat (1#2,0)) = Raise ENonIntPow /\
+  py_binop true exact_rank_deficient exact_inv no_spow Pow (Arr KInt [2;2]%nat (map zi [1;2;3;4]%Z)) (Num KComplex (2,0)) = Raise ENonIntPow /\
+  py_binop true exact_rank_deficient exact_inv no_spow Pow (Arr KInt [2;3]%nat (map zi [1;2;3;4;5;6]%Z)) (Num KInt (zi 2)) = Raise EPowNonSquare /\
+  py_binop true exact_rank_deficient exact_inv no_spow Pow (Arr KInt [2]%nat (map zi [1;2]%Z)) (Num KInt (zi 2)) = Raise EPowShape.
 Proof. exact c14_ex_powers. Qed.
 
 (* [1,2]+[1,2,3], [1,2]+1, 1-[1,2], [1,2]/[1,2], 2/[1,2], 2^[1,2] are errors;  0+[1,2] = [1,2] *)
 Example C14_ex_errors :
-  py_binop true exact_inv no_spow Add (Arr KInt [2]%nat (map zi [1;2]%Z)) (Arr KInt [3]%nat (map zi [1;2;3]%Z)) = Raise EAddShape /\
-  py_binop true exact_inv no_spow Add (Arr KInt [2]%nat (map zi [1;2]%Z)) (Num KInt (zi 1)) = Raise EAddScalar /\
-  py_binop true exact_inv no_spow Sub (Num KInt (zi 1)) (Arr KInt [2]%nat (map zi [1;2]%Z)) = Raise EAddScalar /\
-  py_binop true exact_inv no_spow Div (Arr KInt [2]%nat (map zi [1;2]%Z)) (Arr KInt [2]%nat (map zi [1;2]%Z)) = Raise EDivArray /\
-  py_binop true exact_inv no_spow Div (Num KInt (zi 2)) (Arr KInt [2]%nat (map zi [1;2]%Z)) = Raise ERDivArray /\
-  py_binop true exact_inv no_spow Pow (Num KInt (zi 2)) (Arr KInt [2]%nat (map zi [1;2]%Z)) = Raise ERPowArray /\
-  py_binop true exact_inv no_spow Add (Num KFloat (zi 0)) (Arr KInt [2]%nat (map zi [1;2]%Z))
+  py_binop true exact_rank_deficient exact_inv no_spow Add (Arr KInt [2]%nat (map zi [1;2]%Z)) (Arr KInt [3]%nat (map zi [1;2;3]%Z)) = Raise EAddShape /\
+  py_binop true exact_rank_deficient exact_inv no_spow Add (Arr KInt [2]%nat (map zi [1;2]%Z)) (Num KInt (zi 1)) = Raise EAddScalar /\
+  py_binop true exact_rank_deficient exact_inv no_spow Sub (Num KInt (zi 1)) (Arr KInt [2]%nat (map zi [1;2]%Z)) = Raise EAddScalar /\
+  py_binop true exact_rank_deficient exact_inv no_spow Div (Arr KInt [2]%nat (map zi [1;2]%Z)) (Arr KInt [2]%nat (map zi [1;2]%Z)) = Raise EDivArray /\
+  py_binop true exact_rank_deficient exact_inv no_spow Div (Num KInt (zi 2)) (Arr KInt [2]%nat (map zi [1;2]%Z)) = Raise ERDivArray /\
+  py_binop true exact_rank_deficient exact_inv no_spow Pow (Num KInt (zi 2)) (Arr KInt [2]%nat (map zi [1;2]%Z)) = Raise ERPowArray /\
+  py_binop true exact_rank_deficient exact_inv no_spow Add (Num KFloat (zi 0)) (Arr KInt [2]%nat (map zi [1;2]%Z))
     = Ret (Arr KFloat [2]%nat (map zi [1;2]%Z)).
 Proof. exact c14_ex_errors. Qed.
 
@@ -266,8 +268,8 @@ Example C14_ex_formulas :
   let v12 := EArr [EVal (Num KFloat (zi 1)); EVal (Num KFloat (zi 2))] in
   let v34 := EArr [EVal (Num KFloat (zi 3)); EVal (Num KFloat (zi 4))] in
   let v56 := EArr [EVal (Num KFloat (zi 5)); EVal (Num KFloat (zi 6))] in
-  eval_expr true exact_inv no_spow (EProd v12 [(true, v34); (true, v56)]) = Raise ETripleVec /\
-  eval_expr true exact_inv no_spow (EProd (EParen (EProd v12 [(true, v34)])) [(true, v56)])
+  eval_expr true exact_rank_deficient exact_inv no_spow (EProd v12 [(true, v34); (true, v56)]) = Raise ETripleVec /\
+  eval_expr true exact_rank_deficient exact_inv no_spow (EProd (EParen (EProd v12 [(true, v34)])) [(true, v56)])
     = Ret (Arr KFloat [2]%nat [(55,0); (66,0)]) /\
-  eval_expr true exact_inv no_spow (EArr [v12; EArr [EVal (Num KFloat (zi 3))]]) = Raise ERagged.
+  eval_expr true exact_rank_deficient exact_inv no_spow (EArr [v12; EArr [EVal (Num KFloat (zi 3))]]) = Raise ERagged.
 Proof. exact c14_ex_formulas. Qed.
